@@ -344,8 +344,19 @@ bool population<T>::load(std::istream &in, const problem &prob)
 
   // `is_valid` requires a capacity not lower than the number of individuals
   // allowed (moving a vector keeps its capacity).
-  for (std::size_t l(0); l < pop.size(); ++l)
-    pop[l].reserve(std::max<std::size_t>(allowed[l], pop[l].size()));
+  try
+  {
+    for (std::size_t l(0); l < pop.size(); ++l)
+      pop[l].reserve(std::max<std::size_t>(allowed[l], pop[l].size()));
+  }
+  catch (const std::bad_alloc &)
+  {
+    return false;  // absurd number of allowed individuals
+  }
+  catch (const std::length_error &)
+  {
+    return false;
+  }
 
   prob_ = &prob;
   pop_ = std::move(pop);
